@@ -15,7 +15,9 @@ DOMAIN = "ptr"
 LEVEL = "proof"
 TECHNIQUE = ("Coq proofs about a model of json_pointer.c against an independent RFC 6901 evaluator (PtrModel/PtrSpec/PtrProofs.v) "
              "+ extracted-model/C differential correspondence + independent Python RFC 6901 oracle")
-RULE = ("one case = one generated tree and 1..8 get/getf/set/setf operations whose pointers are derived from the tree's node "
+RULE = ("small-scope block: every pointer string of <= 4 (thorough 5) bytes over '/~01a-' x 5 small documents x 7 operations, and every "
+        "history of <= 3 (thorough 4) operations over a 24-operation alphabet on {\"a\":[1]}; length sweep 0..300 and around powers of two; "
+        "then one case = one generated tree and 1..8 get/getf/set/setf operations whose pointers are derived from the tree's node "
         "locations (correctly escaped, then optionally damaged by one of 20 mutations); a case is non-trivial when at least one "
         "operation succeeded; distinct = distinct scripts among those, plus distinct (operation kind, errno) vectors of all-failing cases")
 TRUSTED = ["Coq 8.16.1 kernel (coqc), no axioms (Print Assumptions: closed under the global context)",
@@ -620,6 +622,62 @@ WITNESSES = [
 ]
 
 
+# ------------------------------------------------------------------ small-scope enumeration
+SS_ALPHABET = b"/~01a-"      # split | escape | escape digit, index digit, leading zero | digit 1 | plain name | append
+F_GET = "GHIJD"
+F_SET = "STUVE"
+
+
+def small_docs():
+    """tiny documents in which every byte of SS_ALPHABET selects a different branch: members
+    named by what short tokens unescape to, null members and elements, one- and two-digit
+    indices, nesting of both container kinds, a scalar and the NULL root"""
+    d_obj = ("o", [(b"", ("i", 1)), (b"a", [("i", 10), None, ("o", [(b"a", ("i", 12))])]), (b"~", ("i", 2)), (b"/", ("i", 3)),
+                   (b"0", ("o", [(b"", None), (b"0", [])])), (b"1", ("i", 4)), (b"-", ("i", 5)), (b"~0", ("i", 6)), (b"~1", ("i", 7)),
+                   (b"01", ("i", 8)), (b"a/", ("i", 9)), (b"00", ("i", 11)), (b"10", ("i", 13))])
+    d_arr = [("o", [(b"", ("i", 1)), (b"a", ("i", 2)), (b"0", [("i", 3)])]), None, [("i", 20), None, [("i", 22)]], b"s",
+             ("i", 4), ("i", 5), ("i", 6), ("i", 7), ("i", 8), ("i", 9), [("i", 100)], ("o", [(b"-", ("i", 11))])]
+    d_nest = [[[[("i", 0), ("i", 1)], []], None], [("o", [(b"0", [("i", 1)]), (b"~", None)])]]
+    return [d_obj, d_arr, d_nest, ("i", 5), None]
+
+
+def small_scope(tier):
+    """(1) every pointer string of <= 4 (thorough: 5) bytes over SS_ALPHABET against the five
+    small documents, through get, a getf shape, get with res == NULL, set, the lookup after
+    it, setf of JSON null and the lookup after that;
+    (2) every history of <= 3 (thorough: 4) operations over an alphabet of 24 operations on
+    {"a":[1]}: lookup and three sets (int, empty object, null) at the root, a member, an
+    element, the append token, an index beyond the end and a place below a missing member."""
+    import itertools
+    out = []
+    meta = {"kind": "small-scope"}
+    maxlen = 4 if tier == "quick" else 5
+    docs = small_docs()
+    n = 0
+    for ln in range(0, maxlen + 1):
+        for tup in itertools.product(SS_ALPHABET, repeat=ln):
+            p = bytes(tup)
+            for doc in docs:
+                fg, fs = F_GET[n % 5], F_SET[n % 5]
+                n += 1
+                ops = [("g", p, None), (fg, p, None), ("ng", p, None), ("s", p, ("i", 7)), ("g", p, None),
+                       (fs, p, None), (F_GET[(n + 2) % 5], p, None)]
+                out.append((mk_line(doc, ops), meta))
+    base = ("o", [(b"a", [("i", 1)])])
+    ptrs = [b"", b"/a", b"/a/0", b"/a/-", b"/a/2", b"/b/c"]
+    vals = [("i", 7), ("o", []), None]
+    alphabet = []
+    for i, p in enumerate(ptrs):
+        alphabet.append(("g" if i % 2 == 0 else F_GET[i % 5], p, None))
+        for j, v in enumerate(vals):
+            alphabet.append(("s" if (i + j) % 2 == 0 else F_SET[(i + j) % 5], p, v))
+    depth = 3 if tier == "quick" else 4
+    for ln in range(1, depth + 1):
+        for seq in itertools.product(alphabet, repeat=ln):
+            out.append((mk_line(base, list(seq)), meta))
+    return out
+
+
 LONG_EDGES = [15, 16, 17, 31, 32, 63, 64, 65, 126, 127, 128, 129, 255, 256, 257, 511, 512, 513, 1023, 1024, 1025]
 
 
@@ -627,6 +685,7 @@ def gen(rng, tier):
     n = 5000 if tier == "quick" else 120000
     out = [(mk_line(t, ops), {"kind": "witness"}) for t, ops in WITNESSES]
     out += length_cases(tier)
+    out += small_scope(tier)
     for ci in range(n):
         r = rng.random()
         if r < 0.04:
